@@ -164,6 +164,42 @@ def yq(s):
     return "".join(out)
 
 
+def _idchar1(ch):
+    return ch.isascii() and (ch.isalpha() or ch == "_") or not ch.isascii()
+
+
+def _idchar(ch):
+    return (ch.isascii() and (ch.isalnum() or ch in " _-")) or not ch.isascii()
+
+
+def quote_key(key):
+    """The spelling of a map key inside a property expression / a saved YAML key (vnaproperty(3)):
+    characters that cannot be part of an identifier there, every backslash and trailing spaces are
+    escaped with a backslash.  Written from the documented syntax, independent of the library."""
+    n = len(key)
+    trail = n
+    while trail > 1 and key[trail - 1] == " ":
+        trail -= 1
+    out = []
+    for i, ch in enumerate(key):
+        special = ch == "\\" or (not _idchar1(ch) if i == 0 else not _idchar(ch)) or (i >= trail and i >= 1)
+        out.append("\\" + ch if special else ch)
+    return "".join(out)
+
+
+def unquote_key(text):
+    out = []
+    i = 0
+    while i < len(text):
+        if text[i] == "\\" and i + 1 < len(text):
+            out.append(text[i + 1])
+            i += 2
+        else:
+            out.append(text[i])
+            i += 1
+    return "".join(out)
+
+
 def prop_yaml(v, ind):
     """Property tree (None | str | dict | list) as block YAML lines following 'key:'."""
     pad = " " * ind
@@ -176,7 +212,7 @@ def prop_yaml(v, ind):
             return " {}\n"
         s = "\n"
         for k, x in v.items():
-            s += pad + yq(k) + ":" + prop_yaml(x, ind + 2)
+            s += pad + yq(quote_key(k)) + ":" + prop_yaml(x, ind + 2)
         return s
     if isinstance(v, list):
         if not v:
@@ -364,18 +400,22 @@ def _read_node(lines, i, flags):
     return (root_holder[0] if root_holder else None), i
 
 
-def prop_of_node(nd):
-    """What the property importer makes of a YAML node (for files written by vnacal_save)."""
+def prop_of_node(nd, keytexts=None):
+    """What the property importer makes of a YAML node (for files written by vnacal_save): map keys
+    are written in their quoted spelling.  keytexts (a list) collects (raw key text, key) pairs."""
     if nd.kind == "S":
         if nd.style == "p" and nd.text in ("~", "null", "Null", "NULL"):
             return None
         return nd.text
     if nd.kind == "Q":
-        return [prop_of_node(x) for x in nd.items]
+        return [prop_of_node(x, keytexts) for x in nd.items]
     if nd.kind == "M":
         d = {}
         for k, v in nd.pairs:
-            d[k.text] = prop_of_node(v)
+            key = unquote_key(k.text)
+            if keytexts is not None:
+                keytexts.append((k.text, key))
+            d[key] = prop_of_node(v, keytexts)
         return d
     return None
 
@@ -391,7 +431,8 @@ def read_saved_doc(root, problems):
     if sorted(keys) != ["calibrations", "properties"]:
         problems.append("top-level keys %r" % keys)
     gp = root.get("properties")
-    gprops = prop_of_node(gp) if gp is not None else None
+    keytexts = []
+    gprops = prop_of_node(gp, keytexts) if gp is not None else None
     cs = root.get("calibrations")
     if cs is None or cs.kind != "Q":
         problems.append("calibrations is not a sequence")
@@ -411,7 +452,7 @@ def read_saved_doc(root, problems):
             problems.append("calibration %d: bad integer" % ci)
             continue
         c["z0_text"] = cn.get("z0").text
-        c["props"] = prop_of_node(cn.get("properties"))
+        c["props"] = prop_of_node(cn.get("properties"), keytexts)
         data = cn.get("data")
         if data.kind != "Q" or len(data.items) != c["F"]:
             problems.append("calibration %d: data has %s entries, frequencies %d" % (ci, len(data.items) if data.kind == "Q" else "?", c["F"]))
@@ -478,6 +519,10 @@ def read_saved_doc(root, problems):
                 break
         if ok:
             cals.append(c)
+    for text, key in keytexts:
+        if text != quote_key(key):
+            problems.append("property key %r is written as %r, expected the quoted spelling %r" % (key, text, quote_key(key)))
+            break
     return gprops, cals
 
 
